@@ -157,9 +157,13 @@ def check_anchors(scratch, units):
             if not os.path.exists(p):
                 lost.append(f"{u.name}: file {f} missing")
                 continue
+            want = 1
+            m = re.match(r"\{(\d+)\}\s*(.*)$", rx)
+            if m:  # "{k} regex": the signature occurs k times (e.g. a method and its inner namesake)
+                want, rx = int(m.group(1)), m.group(2)
             n = len(re.findall(rx, open(p).read()))
-            if n != 1:
-                lost.append(f"{u.name}: anchor /{rx}/ matches {n}x in {f}")
+            if n != want:
+                lost.append(f"{u.name}: anchor /{rx}/ matches {n}x in {f} (expected {want})")
     return lost
 
 
@@ -199,6 +203,8 @@ def inject(scratch, units, extra_tests=None):
 
 
 def fn_line(scratch, f, rx):
+    rx = re.sub(r"^\{\d+\}\s*", "", rx)
+    rx = rx.split("\\n")[0]
     try:
         for i, line in enumerate(open(os.path.join(scratch, f)), 1):
             if re.search(rx, line):
@@ -562,6 +568,8 @@ def run_property(pid, tier, repo=REPO, keep=False, quiet_evidence=False, record_
     cfg = P.PROPS[pid]
     units = load_units()
     harnesses = select_harnesses(units, pid, tier)
+    if os.environ.get("VERIF_SEEDED_RUN"):
+        evidence = False  # runs against a deliberately broken tree must not rewrite the committed evidence
     only = os.environ.get("VERIF_ONLY")
     if only:  # development aid; never used by registered commands
         harnesses = [h for h in harnesses if any(o in h["name"] for o in only.split(","))]
